@@ -136,7 +136,11 @@ def build(cfg):
     halo_names = {bdict[f].name for f in halo}
     if cfg.get("slab"):
         sl = cfg["slab"]
-        mat = fdtdx.Material(permittivity=sl.get("eps", 2.0), permeability=sl.get("mu", 1.0), electric_conductivity=sl.get("sigma", 0.0))
+        def tup(v):  # scalar = isotropic, 3 values = diagonal, 3x3 nested = full tensor
+            return tuple(tup(x) for x in v) if isinstance(v, (list, tuple)) else v
+
+        mat = fdtdx.Material(permittivity=tup(sl.get("eps", 2.0)), permeability=tup(sl.get("mu", 1.0)),
+                             electric_conductivity=tup(sl.get("sigma", 0.0)), magnetic_conductivity=tup(sl.get("sigma_m", 0.0)))
         sshape = tuple(h - l for l, h in zip(sl["lo"], sl["hi"]))
         slab = fdtdx.UniformMaterialObject(name="slab", partial_grid_shape=sshape, material=mat)
         constraints.append(slab.set_grid_coordinates(axes=(0, 1, 2), sides=("-", "-", "-"), coordinates=tuple(sl["lo"])))
@@ -201,29 +205,32 @@ def build(cfg):
         keep = [o for o in obj.object_list if o.name not in halo_names]
         vol_idx = [i for i, o in enumerate(keep) if o is obj.volume][0]
         obj = ObjectContainer(object_list=keep, volume_idx=vol_idx)
-    # materials of the configuration
+    # materials of the configuration ("comp": number of components 1 | 3 of each replaced array; the arrays of a scene
+    # may have different component counts, e.g. isotropic permittivity with diagonally anisotropic conductivity)
     full = (3, *shape)
+    comp = cfg.get("comp") or {}
     c = config.courant_number
+
+    def arr(flat, name, scale=1.0):
+        a = np.asarray(flat, dtype=np.float64).reshape(full) * scale
+        return jnp.asarray(a[: comp.get(name, 3)])
+
     if cfg.get("fie") is not None:
-        ie = np.asarray(cfg["fie"], dtype=np.float64).reshape(full)
+        arrays = arrays.aset("inv_permittivities", arr(cfg["fie"], "ie"))
     elif cfg.get("ie2") is not None:
-        ie = np.asarray(cfg["ie2"], dtype=np.float64).reshape(full) / 2.0
-    else:
-        ie = None
-    if ie is not None:
-        arrays = arrays.aset("inv_permittivities", jnp.asarray(ie))
+        arrays = arrays.aset("inv_permittivities", arr(cfg["ie2"], "ie", 0.5))
     if cfg.get("fim") is not None:
-        arrays = arrays.aset("inv_permeabilities", jnp.asarray(np.asarray(cfg["fim"], dtype=np.float64).reshape(full)))
+        arrays = arrays.aset("inv_permeabilities", arr(cfg["fim"], "im"))
     elif cfg.get("im2") is not None:
-        arrays = arrays.aset("inv_permeabilities", jnp.asarray(np.asarray(cfg["im2"], dtype=np.float64).reshape(full) / 2.0))
-    ie_now = np.broadcast_to(np.asarray(arrays.inv_permittivities), full)
+        arrays = arrays.aset("inv_permeabilities", arr(cfg["im2"], "im", 0.5))
     if cfg.get("fsig") is not None:
-        arrays = arrays.aset("electric_conductivity", jnp.asarray(np.asarray(cfg["fsig"], dtype=np.float64).reshape(full) / eta0))
+        arrays = arrays.aset("electric_conductivity", arr(cfg["fsig"], "sig", 1.0 / eta0))
     elif cfg.get("loss") is not None and any(cfg["loss"]):
         ls = np.asarray(cfg["loss"], dtype=np.float64).reshape(full)
+        ie_now = np.broadcast_to(np.asarray(arrays.inv_permittivities), full)
         arrays = arrays.aset("electric_conductivity", jnp.asarray(ls * (2.0 / 3.0) / (c * eta0 * ie_now)))
     if cfg.get("fsigm") is not None:
-        arrays = arrays.aset("magnetic_conductivity", jnp.asarray(np.asarray(cfg["fsigm"], dtype=np.float64).reshape(full) * eta0))
+        arrays = arrays.aset("magnetic_conductivity", arr(cfg["fsigm"], "sigm", eta0))
     return obj, arrays, config
 
 
@@ -291,6 +298,48 @@ def energy_scale(cfg, arrays, E, Hp, H):
     wE, wH = weights(cfg)
     ax = tuple(range(E.ndim - 4, E.ndim))
     return np.sum(wE * eps * np.abs(E) ** 2, axis=ax) + np.sum(wH * mu * np.abs(Hp) * np.abs(H), axis=ax)
+
+
+def dissipation(cfg, arrays, config, E0, E1):
+    """manifest dissipated energy of one step, PER COMPONENT:  sum wE eps s |E1 + E0|^2,  s = c sigma eta0 inv_eps / 2"""
+    from fdtdx.constants import eta0
+
+    full = (3, *cfg["shape"])
+    if arrays.electric_conductivity is None:
+        return np.zeros(E0.shape[:-4])
+    ie = np.broadcast_to(np.asarray(arrays.inv_permittivities, dtype=np.float64), full)
+    sig = np.broadcast_to(np.asarray(arrays.electric_conductivity, dtype=np.float64), full)
+    s = config.courant_number * sig * eta0 * ie / 2
+    wE, _ = weights(cfg)
+    ax = tuple(range(E0.ndim - 4, E0.ndim))
+    return np.sum(wE * (1.0 / ie) * s * np.abs(E1 + E0) ** 2, axis=ax)
+
+
+def full_tensor(cfg, arrays, seed):
+    """replace inv_eps / inv_mu by symmetric positive definite full 3x3 tensors (9 components, lossless)"""
+    import jax.numpy as jnp
+
+    rs = np.random.RandomState(seed)
+    shape = tuple(cfg["shape"])
+
+    def spd():
+        a = rs.uniform(-0.15, 0.15, size=(3, 3, *shape))
+        m = 0.5 * (a + np.transpose(a, (1, 0, 2, 3, 4)))
+        for i in range(3):
+            m[i, i] = rs.uniform(0.4, 1.0, size=shape)
+        return m.reshape(9, *shape)
+
+    arrays = arrays.aset("inv_permittivities", jnp.asarray(spd()))
+    arrays = arrays.aset("inv_permeabilities", jnp.asarray(spd()))
+    return arrays
+
+
+def component_counts(arrays):
+    def n(x):
+        return 0 if x is None else (int(x.shape[0]) if hasattr(x, "shape") and len(x.shape) > 0 else 1)
+
+    return {"inv_eps": n(arrays.inv_permittivities), "inv_mu": n(arrays.inv_permeabilities),
+            "sigma_E": n(arrays.electric_conductivity), "sigma_H": n(arrays.magnetic_conductivity)}
 
 
 def to_ints(x, scale):
